@@ -243,7 +243,10 @@ class DictsGeneratorView(DictsView):
     def _determine_header(self):
         it = iter(self.dicts)
         header = list()
-        peek, it = iterpeek(it, self.sample)
+        try:
+            peek, it = iterpeek(it, self.sample)
+        except StopIteration:
+            peek = []  # the generator has no items at all
         self.dicts = it
         if isinstance(peek, dict):
             peek = [peek]
